@@ -28,12 +28,14 @@ def stage_kind(name, t0, T=None):
         d = P.case(method="DC", N=2, M=1, degree=2, rhs="nl", alg=True, cons=[P.con("z_le")], obj=["integral", "int_z"], T0=t0, TT=T or 1.15)
     elif name == "I":  # horizon given by a parameter of the stage (every clone sets its own value)
         d = P.case(method="MS", N=2, M=1, rhs="nl_t", horizon="Tparam", cons=[P.con("x_le")], obj=["integral_t", "mayer_tf"], T0=t0, TT=T or 1.25)
+    elif name == "J":  # constraints on three different grids (path, boundary point, integrator grid)
+        d = P.case(method="MS", N=2, M=2, rhs="nl", cons=[P.con("x_le"), P.con("bcf"), P.con("xt_le", grid="integrator", include_first=False)], obj=["integral"], T0=t0, TT=T or 1.05)
     else:
         raise KeyError(name)
     return d
 
 
-KINDS = ["A", "B", "C", "D", "E", "F", "G", "H", "I"]
+KINDS = ["A", "B", "C", "D", "E", "F", "G", "H", "I", "J"]
 
 
 def build(names, coupling, via, start=0.3):
@@ -128,7 +130,7 @@ def cases(tier):
     for names in itertools.product(["A", "B", "G", "D"], repeat=2):
         for via in (["direct", "direct"], ["clone", "clone"]):
             for which in (0, 1):
-                for edit in ("subject_to", "set_T", "add_objective", "clear_constraints", "method"):
+                for edit in ("subject_to", "set_T", "add_objective", "clear_constraints", "method", "set_initial", "set_initial_T"):
                     out.append(dict(kind="hist", pattern="substage_edit_after_solve", which=which, edit=edit, spec=build(names, [["continuity", 0]], via), dev=list(names) + via + [edit]))
     for names in itertools.product(["A", "B", "G", "D"], repeat=2):
         for via in (["direct", "direct"], ["clone", "clone"], ["direct", "clone"]):
@@ -271,6 +273,23 @@ def run_hist(case):
                     sd["d"]["cons"] = []
                 else:
                     sd["clear_cons"] = True
+            elif ed == "set_initial":
+                # a guess given on the sub-stage after the solve
+                ent = ["u", "const", 0.3]
+                P.apply_init(rr.st, rr.sym, rr.d, ent)
+                if sd.get("via", "direct") == "direct":
+                    sd["d"]["init"] = list(sd["d"].get("init", [])) + [ent]
+                else:
+                    sd["extra_init"] = [ent]
+            elif ed == "set_initial_T":
+                if rr.d["horizon"] not in ("Tfree", "bothfree"):
+                    return dict(violations=[], evaluations=1, traces=1, transitions=1, outcome="n/a", nontrivial=False, sample=dict(pattern=pat))
+                ent = ["T", "const", 2.45]
+                P.apply_init(rr.st, rr.sym, rr.d, ent)
+                if sd.get("via", "direct") == "direct":
+                    sd["d"]["init"] = list(sd["d"].get("init", [])) + [ent]
+                else:
+                    sd["extra_init"] = [ent]
             elif ed == "method":
                 dd = dict(rr.d); dd.update(N=3, M=2)
                 rr.st.method(P.make_method(dd))
